@@ -15,15 +15,46 @@ def finding_id(r):
     return "C05-exc:%s@%s" % (r.get("exc"), "%s:%s" % tuple(fr) if fr else "?")
 
 
-def cases_for(rnd, nprog, nprefix, nedit):
+SNIPPETS = [
+    "#define A(x) ((x) + 1)\n", "#define MAX(a, b) ((a) > (b) ? (a) : (b))\n", "#define EMPTY()\n", "# define V(a, ...) f(a, __VA_ARGS__)\n",
+    "#if defined(A) && (B > 2 || !C)\n# define D 1\n#elif X\n#else\n#endif\n", "#ifdef A\n#ifndef B\n#endif\n#endif\n",
+    "#include <a.h>\n#include \"b.h\"\n", "#pragma once\n#undef A\n#error stop\n#warning w\n#line 3\n",
+    "#define LONG 1 + \\\n\t2\n", "typedef struct s_a\n{\n\tint\ta;\n\tchar\t*b[3];\n}\tt_a;\n",
+    "typedef int\t(*t_f)(int a, char *b);\n", "int\t(*f(int a))(int);\n", "enum e_a\n{\n\tA = 1,\n\tB\n};\n",
+    "union u_a\n{\n\tint\ta;\n};\n", "struct s_b\tg_b = {.a = 1, .b = {1, 2}};\n", "static const char\t*g_t[] = {\"a\", \"b\"};\n",
+    "void\tf(void) __attribute__((noreturn));\n", "extern int\tg_e;\n", "int\tg(int a[static 3], ...);\n",
+    "int\tmain(int argc, char **argv)\n{\n\tint\ti;\n\n\tfor (i = 0; i < 3; i++)\n\t\tfoo(i);\n\tswitch (argc)\n\t{\n\t\tcase 1:\n"
+    "\t\t\tbreak ;\n\t\tdefault:\n\t\t\tbreak ;\n\t}\n\tdo\n\t{\n\t\ti--;\n\t} while (i > 0);\n\tgoto end;\nend:\n\treturn (argc ? i : 0);\n}\n",
+    "int\tf(void)\n{\n\tt_a\tx;\n\n\tx = (t_a){1, 2};\n\tx.a = sizeof(t_a) * sizeof x;\n\treturn ((int)x.a->b[2](3));\n}\n",
+    "int\tf(void)\n{\n\tchar\t*s;\n\n\ts = \"a\" \"b\";\n\tif (s)\n\t{\n\t\twhile (*s)\n\t\t\ts++;\n\t}\n\telse if (!s)\n\t\treturn (1);\n\telse\n\t\treturn (2);\n\treturn (0);\n}\n",
+    "int\tf(void)\n{\n\treturn (a && -b || ~c);\n}\n", "/* c */ int\ta; // d\n/*\n** e\n*/\n",
+]
+
+
+def corpus(rnd, nprog, nsamples):
+    """base programs: the conforming family G plus the repository's rule samples (constructs outside G:
+    function-like macros, for/switch/goto, struct/enum in .c files, attributes, function pointers, ...)"""
+    import glob
+    progs = [family.program(rnd) for _ in range(nprog)]
+    paths = sorted(glob.glob(os.path.join(common.REPO, "tests", "rules", "samples", "*.[ch]")))
+    rnd.shuffle(paths)
+    for p in paths[:nsamples]:
+        try:
+            with open(p) as f:
+                progs.append((os.path.basename(p), f.read()))
+        except (OSError, UnicodeDecodeError):
+            pass
+    return progs
+
+
+def cases_for(rnd, nprog, nprefix, nedit, nsamples=0, all_prefix_below=0):
     out = []
-    for _ in range(nprog):
-        name, src = family.program(rnd)
+    for name, src in corpus(rnd, nprog, nsamples):
         sp = pipeline.token_spans(src, name)
         if sp is None:
             continue
         out.append((src, name, 0))
-        for p in pipeline.prefixes(src, sp, rnd, nprefix):
+        for p in pipeline.prefixes(src, sp, rnd, 10 ** 6 if len(sp) <= all_prefix_below else nprefix):
             out.append((p, name, 0))
         for e in pipeline.edits(src, sp, rnd, nedit):
             out.append((e, name, 0))
@@ -32,6 +63,18 @@ def cases_for(rnd, nprog, nprefix, nedit):
             sp2 = pipeline.token_spans(e, name)
             if sp2:
                 out.extend((e2, name, 0) for e2 in pipeline.edits(e, sp2, rnd, 1))
+    # constructs outside the family G: every token prefix of each snippet, as .c and as .h, with and without header
+    import impl
+    for sn in SNIPPETS:
+        for name in ("a.c", "a.h"):
+            for text in (sn, impl.HDR + "\n" + sn):
+                sp = pipeline.token_spans(text, name)
+                if sp is None:
+                    continue
+                cuts = sorted(set(hi for _, hi, _ in sp))
+                if text is not sn:
+                    cuts = [c for c in cuts if c > len(impl.HDR)]
+                out.extend((text[:c], name, 0) for c in cuts)
     return out
 
 
@@ -51,9 +94,9 @@ def run(run, tier, seed, replay=None):
         if replay is not None:
             cases = [(replay["data"]["src"], replay["data"]["name"], replay["data"].get("debug", 0))]
         elif tier == "quick":
-            cases = cases_for(rnd, 50, 25, 25)
+            cases = cases_for(rnd, 40, 25, 20, nsamples=60, all_prefix_below=250)
         else:
-            cases = cases_for(rnd, 1200, 60, 60)
+            cases = cases_for(rnd, 1200, 60, 60, nsamples=1000, all_prefix_below=3000)
         drv = common.Driver() if have_drv else None
         kinds = {}
         fails = []
@@ -83,6 +126,38 @@ def run(run, tier, seed, replay=None):
                                    finding_id=finding_id(r))
         if drv:
             drv.close()
+        # ---- (c) the command line wrapper: every outcome class through main() itself, given as a path
+        import shutil
+        import tempfile
+        import impl
+        byk = {}
+        for src, name, debug in cases:
+            pass
+        tmp = tempfile.mkdtemp(prefix="nvc05_")
+        try:
+            sample = cases[:: max(1, len(cases) // (120 if tier == "quick" else 1500))]
+            ncli = 0
+            for k, (src, name, debug) in enumerate(sample):
+                d = os.path.join(tmp, "c%d" % k)
+                os.makedirs(d)
+                with open(os.path.join(d, name), "w") as f:
+                    f.write(src)
+                code, out, err, exc = impl.run_main(["--no-colors", name], cwd=d, limit=5.0)
+                shutil.rmtree(d, ignore_errors=True)
+                ncli += 1
+                r = {"kind": "timeout"} if exc and exc[0] == "Timeout" else {"kind": "exc", "exc": exc[0], "frame": exc[1]} if exc else None
+                if r is not None:
+                    found |= run.violation("cli-internal-error" if r["kind"] == "exc" else "cli-hang",
+                                           {"src": src, "name": name, "exc": exc}, finding_id=finding_id(r))
+                    continue
+                lines = [x for x in out.split("\n") if x]
+                fatal = len(lines) >= 1 and lines[0] == name + ": Error!" and len(lines) == 2 and lines[1].startswith("\t")
+                verdict = len(lines) >= 1 and lines[0] in (name + ": OK!", name + ": Error!") and not fatal
+                if not ((fatal and code not in (0, None)) or (verdict and code in (0, 1))):
+                    found |= run.violation("cli-neither-verdict-nor-fatal-line", {"src": src, "name": name, "exit": code, "stdout": out[-400:], "stderr": err[-400:]})
+            run.count("command line: main() on a path, every outcome class", ncli, ncli)
+        finally:
+            shutil.rmtree(tmp, ignore_errors=True)
         run.count("pipeline: programs, token prefixes, 1-2 token edits", len(cases), kinds.get("ok", 0) + kinds.get("fatal", 0))
         run.cov["pipeline_outcomes"] = kinds
         run.cov["registry_loop_runs_compared_with_model"] = ncorr
